@@ -455,7 +455,8 @@ META = {
     "shown disjoint so test order is irrelevant; arity agrees between tokenizer classes, grammar production and "
     "decoder; slot setters have the first-wins/None-ignored/close-and-raise shape on all paths and private slot "
     "writes occur only at the documented sites; the spelling reaches the decoder unmodified (each re-binding "
-    "before _parse_redirects is interpreted through the decoder's own subject transformations); every normal return of cmds_to_specs passes the residual-sentinel "
+    "before _parse_redirects is interpreted through the decoder's own subject transformations); in the pipe wiring every feasible path takes the upstream stdout and the downstream stdin through the "
+    "public conflict-checking setters (stdout exempt only under e>p); every normal return of cmds_to_specs passes the residual-sentinel "
     "check; sibling stage-kind handlers are cross-checked for the merge flags. Actual byte delivery is not decided.",
     "note": "Decides the listed structural clauses, not the behaviour. Oracle table (origin/destination classes, "
     "modes) is written from the property statement and docs. Known finding: ProcProxy._pick_buf ignores the merge flags.",
